@@ -254,7 +254,7 @@ func hdr(maj byte, n uint64) []byte {
 
 func TestCheck(t *testing.T) {
 	r := vp.New("C10", "exploration",
-		"messages: {CIDv0, CIDv1 x 3 codecs x 3 hash functions} x {every list of 0..3 addresses over a 5-symbol alphabet incl. unknown-protocol, empty and 300-byte strings} x {extra data nil/empty/1/24/256 bytes} x {orig peer absent/present}, CBOR and JSON round trips, the CBOR decoder also fed through readers that deliver one byte / half / 7 bytes per Read or the error together with the last data; HTTP sender (CBOR and JSON) and pubsub sender for every address list of <=3 over {3 valid, 1 unknown-protocol}, the HTTP sender also with extra data whose only, first or last byte is each of the 256 byte values (lists of <=1 address), with an original-peer field and with extra data carried by the message instead of the sender option, one message value sent through a sender with extra data of its own and then through a plain one, and one sender used for sequences of JSON and CBOR announcements (the declared content type is checked on every request); CBOR decoder: for each corpus encoding every single-byte substitution, every truncation, every CBOR header token at every offset (replacing 0 or 1 byte) singly and a reduced token set in adjacent pairs, lengths at and just above each cap, all byte strings of length <=2; after every rejected input the worker decodes a fixed valid message and compares it. Non-trivial: messages with at least one address or extra data; decoder inputs other than the corpus.",
+		"messages: {CIDv0, CIDv1 x 3 codecs x 3 hash functions} x {every list of 0..3 addresses over a 5-symbol alphabet incl. unknown-protocol, empty and 300-byte strings} x {extra data nil/empty/1/24/256 bytes} x {orig peer absent/present}, CBOR and JSON round trips, the CBOR decoder also fed through readers that deliver one byte / half / 7 bytes per Read or the error together with the last data; HTTP sender (CBOR and JSON) and pubsub sender for every address list of <=3 over {3 valid, 1 unknown-protocol}, the HTTP sender also with extra data whose only, first or last byte is each of the 256 byte values (lists of <=1 address), with an original-peer field and with extra data carried by the message instead of the sender option, one message value sent through a sender with extra data of its own and then through a plain one, and one sender used for sequences of JSON and CBOR announcements (the declared content type is checked on every request), and the pubsub sender that makes its own topic from a host and a topic name, with and without extra data of its own and of the message, read by a second host joined to the topic; CBOR decoder: for each corpus encoding every single-byte substitution, every truncation, every CBOR header token at every offset (replacing 0 or 1 byte) singly and a reduced token set in adjacent pairs, lengths at and just above each cap, all byte strings of length <=2; after every rejected input the worker decodes a fixed valid message and compares it. Non-trivial: messages with at least one address or extra data; decoder inputs other than the corpus.",
 		"equality treats nil and empty byte fields alike",
 		"allocation bound: input length + 2 x ByteArrayMaxLen + 256 KiB",
 		"decoder inputs run in a worker subprocess with a 6 GiB address-space limit",
@@ -899,6 +899,8 @@ func checkSenders(r *vp.Recorder) {
 		r.Outcome("httpsend-one-sender-ok")
 	}
 
+	ownTopicSender(r, pub, c)
+
 	// pubsub sender on a single-host topic
 	key := "p2psend"
 	if !r.Mine(key) {
@@ -1007,4 +1009,115 @@ func checkSenders(r *vp.Recorder) {
 		r.Outcome("p2psend-burst-ok")
 	}
 	var _ peer.ID
+}
+
+// ownTopicSender: the pubsub sender that makes its own topic from a host and a
+// topic name (p2psender.New(host, name, ...)), with and without extra data of
+// its own, read by a second host that joined the same topic. The two hosts
+// talk over loopback TCP; until the sender's pubsub has learnt of the reader's
+// subscription nothing is delivered, so announcements of distinct CIDs are sent
+// until the first one arrives (no verdict when none does within the limit); the
+// verdict is about the content of what arrives, never about when.
+func ownTopicSender(r *vp.Recorder, pub *fixture.Identity, c cid.Cid) {
+	const topicName = "/indexer/ingest/verif-own"
+	for _, senderExtra := range []string{"", "sx"} {
+		for _, msgExtra := range []string{"", "mx"} {
+			key := fmt.Sprintf("p2psend|own-topic|sender-extra=%q|message-extra=%q", senderExtra, msgExtra)
+			if !r.Mine(key) {
+				continue
+			}
+			r.Eval(key, senderExtra != "" || msgExtra != "")
+			func() {
+				hs, err := libp2p.New(libp2p.ListenAddrStrings("/ip4/127.0.0.1/tcp/0"), libp2p.Identity(pub.Priv))
+				if err != nil {
+					r.Note("own-topic: sender host unavailable: %v", err)
+					return
+				}
+				defer hs.Close()
+				hr, err := libp2p.New(libp2p.ListenAddrStrings("/ip4/127.0.0.1/tcp/0"))
+				if err != nil {
+					r.Note("own-topic: reader host unavailable: %v", err)
+					return
+				}
+				defer hr.Close()
+				var sopts []p2psender.Option
+				if senderExtra != "" {
+					sopts = append(sopts, p2psender.WithExtraData([]byte(senderExtra)))
+				}
+				sender, err := p2psender.New(hs, topicName, sopts...)
+				if err != nil {
+					r.Violation("p2psender:own-topic:new-error", key, err.Error(), nil)
+					return
+				}
+				defer sender.Close()
+				ctx, cancel := context.WithTimeout(context.Background(), 40*time.Second)
+				defer cancel()
+				ps, err := pubsub.NewGossipSub(ctx, hr)
+				if err != nil {
+					r.Note("own-topic: gossipsub unavailable: %v", err)
+					return
+				}
+				topic, err := ps.Join(topicName)
+				if err != nil {
+					r.Note("own-topic: join: %v", err)
+					return
+				}
+				sub, err := topic.Subscribe()
+				if err != nil {
+					r.Note("own-topic: subscribe: %v", err)
+					return
+				}
+				if err := hr.Connect(ctx, peer.AddrInfo{ID: hs.ID(), Addrs: hs.Addrs()}); err != nil {
+					r.Note("own-topic: the two hosts cannot connect: %v", err)
+					return
+				}
+				sent := map[string]message.Message{}
+				all := cids()
+				for attempt := 0; attempt < 150; attempt++ {
+					msg := message.Message{Cid: all[attempt%len(all)], OrigPeer: pub.ID.String(), Addrs: [][]byte{multiaddr.StringCast(fmt.Sprintf("/ip4/10.0.%d.%d/tcp/9", attempt/250, attempt%250+1)).Bytes()}}
+					if msgExtra != "" {
+						msg.ExtraData = []byte(msgExtra)
+					}
+					if err := sender.Send(ctx, msg); err != nil {
+						r.Violation("p2psender:own-topic:send-error", key, err.Error(), nil)
+						return
+					}
+					sent[string(msg.Addrs[0])] = msg
+					rctx, rcancel := context.WithTimeout(ctx, 200*time.Millisecond)
+					pm, err := sub.Next(rctx)
+					rcancel()
+					if err != nil {
+						continue
+					}
+					var got message.Message
+					if err := got.UnmarshalCBOR(bytes.NewReader(pm.Data)); err != nil {
+						r.Violation("p2psender:own-topic:receiver-cannot-decode", key, err.Error(), nil)
+						return
+					}
+					if len(got.Addrs) != 1 {
+						r.Violation("p2psender:own-topic:wire-differs:addrs", key, fmt.Sprintf("%d addresses decoded, 1 sent", len(got.Addrs)), nil)
+						return
+					}
+					want, ok := sent[string(got.Addrs[0])]
+					if !ok {
+						r.Violation("p2psender:own-topic:wire-differs:addrs", key, "the decoded address is none that was sent", nil)
+						return
+					}
+					// the sender's own extra data, when it has any, is what goes out
+					if senderExtra != "" {
+						want.ExtraData = []byte(senderExtra)
+					}
+					if ok, why := msgEqual(&want, &got); !ok {
+						r.Violation("p2psender:own-topic:wire-differs:"+why, key, fmt.Sprintf("sender made by New(host, topic name) with extra data %q, message with extra data %q: the reader on the topic decoded extra data %q (difference in %s)", senderExtra, msgExtra, got.ExtraData, why), nil)
+						return
+					}
+					r.Outcome("p2psend-own-topic-ok")
+					r.Count("own_topic_attempts_until_first_delivery", int64(attempt+1))
+					return
+				}
+				r.Note("own-topic: nothing was delivered to the reader within the limit for %s; no verdict", key)
+				r.Outcome("p2psend-own-topic-no-delivery")
+			}()
+		}
+	}
 }
